@@ -70,7 +70,9 @@ func (c *RecCase) Exec(t *eng.T) {
 }
 
 func run(r *eng.Runner) {
-	ctx := map[string]V{"tainted": StrV("<&>"), "lst": ListV(IntV(1), IntV(2)), "n": IntV(4), "dflt": StrV("cd")}
+	// the context also holds entries named like the parameters: an omitted parameter must not fall through to them
+	ctx := map[string]V{"tainted": StrV("<&>"), "lst": ListV(IntV(1), IntV(2)), "n": IntV(4), "dflt": StrV("cd"),
+		"p": StrV("ctx-p"), "q": StrV("ctx-q"), "r": StrV("ctx-r"), "s": StrV("ctx-s")}
 	maxP := 3
 	if !r.Quick() {
 		maxP = 4
@@ -163,16 +165,25 @@ func run(r *eng.Runner) {
 	}
 
 	// ---- runaway recursion: every call graph over 1..3 macros in which every macro calls another ----
-	r.Group("recursion", "c13.rec", "all call graphs over 1..3 macros in which every macro calls exactly one macro (no base case) x every assignment of the macros to {local file, imported file}; each run in a fresh sub-process (a stack overflow kills the process)")
+	r.Group("recursion", "c13.rec", "all call graphs over 1..3 macros in which every macro calls exactly one macro (no base case) x every assignment of the macros to {local file, imported file} x {call in the body, call in a parameter default}; each run in a fresh sub-process (a stack overflow kills the process)")
 	for n := 1; n <= 3; n++ {
 		enum.Tuples(n, n, func(callee []int) bool { // callee[i] = macro called by macro i
-			enum.Tuples(2, n, func(where []int) bool { // 0 = local, 1 = in /lib
+			enum.Tuples(4, n, func(wv []int) bool { // bit 0: 0 = local, 1 = in /lib ; bit 1: the call sits in the body (0) or in a parameter default (1)
+				where := make([]int, n)
+				via := make([]int, n)
+				for i, x := range wv {
+					where[i], via[i] = x&1, x>>1
+				}
 				names := []string{"ma", "mb", "mc"}
 				var mainB, libB strings.Builder
 				var imports []string
 				anyLib := false
 				for i := 0; i < n; i++ {
 					def := fmt.Sprintf("{%% macro %s(x) %s%%}[{{ %s(x) }}]{%% endmacro %%}", names[i], map[int]string{0: "", 1: "export "}[where[i]], names[callee[i]])
+					if via[i] == 1 {
+						// the recursive call is made while binding a default value
+						def = fmt.Sprintf("{%% macro %s(x, y=%s(1)) %s%%}[{{ y }}]{%% endmacro %%}", names[i], names[callee[i]], map[int]string{0: "", 1: "export "}[where[i]])
+					}
 					if where[i] == 0 {
 						mainB.WriteString(def)
 					} else {
@@ -191,7 +202,7 @@ func run(r *eng.Runner) {
 					main = "{% import \"lib\" " + strings.Join(imports, ", ") + " %}" + main
 				}
 				files["/main"] = main + "{{ " + names[0] + "(1) }}"
-				label := fmt.Sprintf("graph callee=%v where=%v", callee, where)
+				label := fmt.Sprintf("graph callee=%v where=%v via-default=%v", callee, where, via)
 				r.DoIsolated(&RecCase{Files: files, Label: label}, 60*time.Second)
 				return !r.Stopped()
 			})
